@@ -141,6 +141,17 @@ CLAIMED = {
             "trusted: TLC, IEEE-754 hardware arithmetic and the platform libm via python floats/math as the value oracle; shift "
             "counts >= 64 are undecided; fractional operands of bitwise operators are truncated",
             "DESIGN.md §4 C09"),
+    "C04": ("TLA+ specs Total (per-thread outcome protocol and histories), Stack (frame counter) and StdSig (boundary "
+            "tuples) model-checked by TLC; source texts, every std function x boundary tuples, recursion sweeps and TLC-enumerated "
+            "failure histories executed on the implementation and trace-validated against Trace_Total",
+            "TLC checks Bounded/Balanced of the frame counter and IdleClean of the thread protocol and enumerates token sequences, "
+            "argument tuples and all histories of 3 outcome classes; every execution is an event that must be val or err (no crash "
+            "action exists) with frame counter, assertion markers and entered state restored; recursion must succeed when "
+            "4n < limit and must stop with a stack-overflow error when n > limit; self-dependent values must report infinite "
+            "recursion; the probe after every history must evaluate normally",
+            "trusted: TLC, the cfg-guarded depth/asserting/entered accessors; unoptimised build with overflow checks; sizes "
+            "bounded so that legal results fit in memory; quick tier samples 60k of the std x tuple calls",
+            "DESIGN.md §4 C04"),
 }
 
 NOT_YET = "specification module and binding not built yet in this round; see DESIGN.md §4 for the planned model"
